@@ -1,58 +1,81 @@
 (* C25 property theorems. Nothing but statements closed by `exact`, Print Assumptions and non-vacuity examples. *)
 From Coq Require Import List ZArith String Bool.
 From GoProbe.Base Require Import CorrLib.
-From GoProbe.C25 Require Import Model Proofs1 Proofs2 Proofs3 Proofs4.
+From GoProbe.C25 Require Import Model Proofs1 Proofs2 Proofs3 Proofs4 Proofs5 Proofs6.
 Import ListNotations.
 Open Scope Z_scope.
 
 (* FULL STATEMENT (not provable for the code as it is, see c25_old_or_new_refuted / finding C25-rename-window):
-     forall nm dst src o i ts k, names_ok nm -> is_stage i = false -> plans_wf o dst src ->
+     forall nm dst src o i ts k, names_ok nm -> is_stage i = false -> NoDup (interfaces src) ->
        day_view (crash_state nm dst src o k) i ts = day_view dst i ts
        \/ day_view (crash_state nm dst src o k) i ts = day_view (final_state nm dst src o) i ts.
    Proved: the same for every crash prefix k except the one that ends with the rename that moves the existing
    directory of exactly this day (i, ts) aside (window_at = the kill lands between the two renames of
-   commitStagedDay). For every destination / source file system, all options, all names. *)
+   commitStagedDay). For every destination / source file system, all options, all names; the only hypothesis
+   on the databases is that the source root has no two directory entries of the same name. *)
 Theorem c25_old_or_new_partial : forall nm dst src o i ts k,
-  names_ok nm -> is_stage i = false -> plans_wf o dst src ->
+  names_ok nm -> is_stage i = false -> NoDup (interfaces src) ->
   window_at (merge_ops nm dst src o) i ts k = false ->
   day_view (crash_state nm dst src o k) i ts = day_view dst i ts
   \/ day_view (crash_state nm dst src o k) i ts = day_view (final_state nm dst src o) i ts.
-Proof. exact old_or_new_partial. Qed.
+Proof. exact old_or_new_partial'. Qed.
 Print Assumptions c25_old_or_new_partial.
 
 (* the excluded crash point is a real violation: the day shows neither copy *)
 Theorem c25_old_or_new_refuted :
   exists nm dst src o i ts k,
-    is_stage (n_stage nm) = true /\ is_stage i = false /\ plans_wf o dst src
+    is_stage (n_stage nm) = true /\ is_stage i = false /\ NoDup (interfaces src)
     /\ window_at (merge_ops nm dst src o) i ts k = true
     /\ day_view (crash_state nm dst src o k) i ts <> day_view dst i ts
     /\ day_view (crash_state nm dst src o k) i ts <> day_view (final_state nm dst src o) i ts.
 Proof.
   exists ex_names, ex_dst, ex_src, ex_opts, "eth0"%string, 1704844800, 8%nat.
   destruct window_refutes as [A [B [C [D [E [F G]]]]]].
-  split; [exact A|]. split; [exact B|]. split; [exact C|]. split; [exact D|].
+  split; [exact A|]. split; [exact B|]. split; [vm_compute; repeat constructor; intros []|]. split; [exact D|].
   split; rewrite G; [rewrite E | rewrite F]; discriminate.
 Qed.
 Print Assumptions c25_old_or_new_refuted.
 
 (* stage and backup directories are never returned as interfaces or days by the interface listing, the
-   query walk or the merge's own listing - in every crash state (in fact in every file system) - and the
-   names the merge gives them are exactly the names those readers skip *)
+   query walk, the merge's own listing, or the prefix search by which a DirWriter picks the directory it
+   appends to and a DirReader recovers a renamed directory - in every crash state; a later merge plans
+   exactly as if they were not there; and the paths the merge creates for them are such leftovers *)
 Theorem c25_leftovers_invisible : forall nm dst src o k, is_stage (n_stage nm) = true ->
   let s := crash_state nm dst src o k in
   ~ In (n_stage nm) (interfaces s)
   /\ (forall n, In n (interfaces s) -> is_stage n = false)
   /\ (forall i ds t n c, walk s i = Ok ds -> In (t, n, c) ds -> is_backup n = false)
   /\ (forall i ds d, list_days s i = Ok ds -> In d ds -> is_backup (snd (fst d)) = false)
-  /\ (forall a y m dn, exists dnb, backup_path nm [a; y; m; dn] = [a; y; m; dnb] /\ is_backup dnb = true).
-Proof. exact leftovers_invisible. Qed.
+  /\ (forall nm' i ts dn, In dn (prefix_matches nm' s i ts) -> is_backup dn = false)
+  /\ (forall o', plans o' (strip_leftovers s) src = plans o' s src)
+  /\ (forall a y m dn, exists dnb, backup_path nm [a; y; m; dn] = [a; y; m; dnb] /\ is_backup dnb = true
+                                   /\ leftover (backup_path nm [a; y; m; dn], NDir Empty) = true)
+  /\ (forall r n, leftover (n_stage nm :: r, n) = true).
+Proof. exact leftovers_invisible'. Qed.
 Print Assumptions c25_leftovers_invisible.
+
+(* FULL STATEMENT, not proved (checked at every crash point of every run): from every crash prefix outside the
+   window a later merge completes and day_view (final_state nm2 (crash_state nm dst src o k) src o) i ts
+   = day_view (final_state nm dst src o) i ts. Inside the window it does not hold: the later merge rebuilds the
+   day from the source alone and the destination-only block (1704845100, 1) stays hidden in the backup. *)
+Theorem c25_later_merge_window_refuted :
+  exists nm nm2 dst src o i ts k,
+    window_at (merge_ops nm dst src o) i ts k = true
+    /\ merge_fails o (crash_state nm dst src o k) src = false
+    /\ day_view (final_state nm2 (crash_state nm dst src o k) src o) i ts
+       <> day_view (final_state nm dst src o) i ts.
+Proof.
+  exists ex_names, ex2_names2, ex2_dst, ex2_src, ex2_opts, "eth0"%string, 1704844800, 9%nat.
+  destruct window_later_merge as [A [B [C D]]].
+  split; [exact A|]. split; [exact B|]. rewrite C, D. discriminate.
+Qed.
+Print Assumptions c25_later_merge_window_refuted.
 
 (* non-vacuity: the hypotheses of the partial theorem are met by a merge that replaces an existing day, at a
    crash point after the staged day was moved in while the backup still exists (k = 9), and the day then
    shows its merged data *)
 Example c25_partial_example :
-  is_stage "eth0" = false /\ plans_wf ex_opts ex_dst ex_src
+  is_stage "eth0" = false /\ NoDup (interfaces ex_src)
   /\ window_at (merge_ops ex_names ex_dst ex_src ex_opts) "eth0" 1704844800 9 = false
   /\ day_view (crash_state ex_names ex_dst ex_src ex_opts 9) "eth0" 1704844800
      = day_view (final_state ex_names ex_dst ex_src ex_opts) "eth0" 1704844800
@@ -61,6 +84,6 @@ Example c25_partial_example :
   /\ interfaces (crash_state ex_names ex_dst ex_src ex_opts 9) = ["eth0"%string].
 Proof.
   destruct window_refutes as [A [B [C _]]].
-  split; [exact B|]. split; [exact C|]. split; [vm_compute; reflexivity|]. split; [vm_compute; reflexivity|].
+  split; [exact B|]. split; [vm_compute; repeat constructor; intros []|]. split; [vm_compute; reflexivity|]. split; [vm_compute; reflexivity|].
   split; vm_compute; reflexivity.
 Qed.
